@@ -259,6 +259,7 @@ def cases(ctx):
     yield from bitmap_cases(ctx)
     yield from rdtype_cases(ctx)
     yield from b32_cases(ctx)
+    yield from sigtime_cases(ctx)
     # --- the regular record types through the schema model
     yield from schema_cases(ctx)
     # --- whole records (oracle only)
@@ -290,10 +291,17 @@ SCHEMA = {
     52: ("d8 d8 d8 hex", ["usage", "selector", "mtype", "cert"]), 53: ("d8 d8 d8 hex", ["usage", "selector", "mtype", "cert"]),
     44: ("d8 d8 hex", ["algorithm", "fp_type", "fingerprint"]),
     49: ("b64", ["data"]), 61: ("b64", ["key"]),
+    46: ("etype ealgnum i8 ttl sigtime sigtime i16 n b64",
+         ["type_covered", "algorithm", "labels", "original_ttl", "expiration", "inception", "key_tag", "signer", "signature"]),
+    24: ("etype ealgnum i8 ttl sigtime sigtime i16 n b64",
+         ["type_covered", "algorithm", "labels", "original_ttl", "expiration", "inception", "key_tag", "signer", "signature"]),
     16: ("txt", ["strings"]), 99: ("txt", ["strings"]), 258: ("txt", ["strings"]), 56: ("txt", ["strings"]),
     261: ("txt", ["strings"]), 262: ("txt", ["strings"]),
 }
-MAXV = {"d8": 255, "d16": 65535, "d32": 2**32 - 1, "ttl": 2**32 - 1}
+MAXV = {"d8": 255, "d16": 65535, "d32": 2**32 - 1, "ttl": 2**32 - 1, "i8": 255, "i16": 65535}
+# signature times around day / month / leap-year / century boundaries and the ends of the 32-bit range
+SIGTIMES = [0, 1, 59, 60, 3599, 3600, 86399, 86400, 68169599, 68169600, 951782399, 951782400, 951868799, 951868800,
+            1709164800, 1709251199, 1709251200, 2**31 - 1, 2**31, 4107542399, 4107542400, 4294967295]
 
 
 def gen_field(rng, kind):
@@ -320,7 +328,9 @@ def gen_field(rng, kind):
         return rng.choice([0, 1, 2, 23, 46, 47, 48, 59, 60, 62, 255, 256, 257, 262, 263, 32768, 32769, 65535, rng.randrange(65536)])
     if kind == "ectype":
         return rng.choice([0, 1, 2, 3, 4, 5, 6, 7, 8, 9, 252, 253, 254, 255, 65535, rng.randrange(65536)])
-    if kind in ("escheme", "ealg"):
+    if kind == "sigtime":
+        return rng.choice(SIGTIMES) if rng.random() < 0.4 else rng.randrange(2**32)
+    if kind in ("escheme", "ealg", "ealgnum"):
         return rng.choice([0, 1, 2, 5, 8, 13, 16, 17, 252, 253, 254, 255, rng.randrange(256)])
     if kind == "nsap":
         return gen_bytes(rng, 24)
@@ -487,6 +497,25 @@ def rdtype_cases(ctx):
         yield "rdtype-from-text", [57, enc(mutate_ascii(rng, rng.choice(names).encode()).decode("latin-1"))]
 
 
+def sigtime_cases(ctx):
+    """RRSIG/SIG times (dns/rdtypes/rrsigbase.py): op 60 posixtime_to_sigtime, op 61 sigtime_to_posixtime"""
+    rng = ctx.rng
+    import dns.rdtypes.rrsigbase as _rs  # noqa
+    for t in SIGTIMES + [rng.randrange(2**32) for _ in range(ctx.n(40, 4000))]:
+        yield "sigtime-to-text", [60, t]
+        s = _rs.posixtime_to_sigtime(t)
+        yield "sigtime-from-text", [61, enc(s)]
+        m = list(s)
+        for _ in range(rng.randint(1, 2)):
+            m[rng.randrange(len(m))] = rng.choice("0912 +-_a")
+        if rng.random() < 0.3:
+            m = m[:rng.randint(0, 14)]
+        yield "sigtime-from-text", [61, enc("".join(m))]
+    for s in ["", "0", "1234567890", "12345678901", "00000000000000", "99991231235959", "00010101000000", "20200230000000",
+              "20201301000000", "20200100000000", "20200199996161", "2020010100000", "202001010000000", "4294967295", "4294967296"]:
+        yield "sigtime-from-text", [61, enc(s)]
+
+
 def b32_cases(ctx):
     rng = ctx.rng
     import dns.rdtypes.ANY.NSEC3 as _n3  # noqa
@@ -568,13 +597,15 @@ def in_model(kind, case):
     if case[0] in (51, 53) and any(c in (10, 13) or c > 127 for c in (case[1] if isinstance(case[1], (bytes, list)) else b"")):
         # regular-expression corner cases ('.' and '$' around line breaks) and non-ASCII digits: outside the model
         return False
+    if case[0] == 61 and any(c > 127 for c in (case[1] if isinstance(case[1], (bytes, list)) else b"")):
+        return False  # str.isdigit() / int() of non-ASCII text
     if case[0] == 57 and any(c > 127 for c in (case[1] if isinstance(case[1], (bytes, list)) else b"")):
         return False  # str.upper() / isdecimal() of non-ASCII text
     if case[0] == 41:
         text = dec(case[2])
         # names go through the IDNA codec when the text is not ASCII; the generic-syntax branch of a
         # schema type needs the wire codec (C02): neither is part of this model
-        if any(ord(c) > 127 for c in text) and (set(SCHEMA[case[1]][0].split()) & {"n", "bm", "etype", "escheme", "ectype", "ealg", "alg"}):
+        if any(ord(c) > 127 for c in text) and (set(SCHEMA[case[1]][0].split()) & {"n", "bm", "etype", "escheme", "ectype", "ealg", "ealgnum", "sigtime", "alg"}):
             return False
         if "a6" in SCHEMA[case[1]][0] and ("\\" in text or any(ord(c) > 127 for c in text)):
             # escapes can put a line break into the address text (regular-expression corner case)
@@ -682,6 +713,17 @@ def impl(case):
                 return base64.b32decode(nxt)
             except UnicodeEncodeError:
                 return Err(103, "UnicodeEncodeError")
+        if op == 60:
+            import dns.rdtypes.rrsigbase as _rs  # noqa
+            return enc(_rs.posixtime_to_sigtime(case[1]))
+        if op == 61:
+            import dns.rdtypes.rrsigbase as _rs  # noqa
+            try:
+                return int(_rs.sigtime_to_posixtime(dec(case[1])))
+            except _rs.BadSigTime:
+                return Err(25, "BadSigTime")
+            except ValueError:
+                return Err(105, "ValueError")
         if op == 56:
             return enc(dns.rdatatype.to_text(case[1]))
         if op == 57:
@@ -828,6 +870,13 @@ def oracle(ctx, kind, case, out):
                 fail("address text does not parse back to the same octets", sig="addr")
         except Exception as e:  # noqa
             fail("address text does not parse: %r" % e, sig="addr")
+    elif op == 60 and not isinstance(out, Err):
+        import dns.rdtypes.rrsigbase as _rs  # noqa
+        try:
+            if _rs.sigtime_to_posixtime(dec(out)) != case[1]:
+                fail("signature time text does not parse back to the same time", sig="sigtime")
+        except Exception as e:  # noqa
+            fail("signature time text does not parse: %r" % e, sig="sigtime")
     elif op == 54 and not isinstance(out, Err):
         # the printed types, read back, must give the same windows when the bitmap is canonical
         ws = [[w, bytes(b)] for w, b in case[1]]
@@ -906,6 +955,12 @@ def widen(ctx, disagreements):
             elif op in (52, 53):
                 a = case[1] if op == 52 else dns.ipv6.inet_aton(dec(case[1]))
                 check_wire(IN, int(dns.rdatatype.AAAA), a, "ipv6 text disagreement")
+            elif op in (60, 61):
+                t = case[1] if op == 60 else impl(case)
+                if isinstance(t, int) and 0 <= t < 2**32:
+                    import struct as _st
+                    check_wire(IN, int(dns.rdatatype.RRSIG), _st.pack("!HBBIIIH", 1, 8, 2, 3600, t, t, 7) + b"\x01x\x00" + b"sig",
+                               "signature time disagreement")
             elif op in (54, 55):
                 types = impl([54, case[1]]) if op == 54 else case[1]
                 bm = c05lib.bitmap_wire({t for t in types if t})
